@@ -126,6 +126,9 @@ def run(tier):
 
     P.hooks.append(hook)
     P.run()
+    from harness import probes
+    probes.late_serialized_method(R)
+    probes.dynamic_over_default_conversion(R)
     header = P.header() + HEADER_EXTRA + "\n".join(sdefs) + "\n"
     T2 = "js * defs * pyval * bool"
     bad2, errs = core.run_coq_shards("C07_valid", header, vcases,
